@@ -147,6 +147,9 @@ def judge(ctx, j, res, exp):
     return 'violation'
 
 
+D29_FUNCS = {'sigmoid'}
+
+
 def _const_call(t):
     """some call whose argument contains no variable (the function is then never registered for the generated module)"""
     if not t:
@@ -155,7 +158,8 @@ def _const_call(t):
         if u['k'] == 'sub' and u['a'] == u['b']:
             return False            # x - x is simplified to 0 before the call is looked at
         return u['k'] == 'var' or any(has_var(c) for c in u['a'] + u['b'])
-    if t['k'] == 'call' and not has_var(t['a'][0]):
+    # only functions PyRates defines itself are affected (sigmoid); NumPy functions with constant arguments work
+    if t['k'] == 'call' and t['n'] in D29_FUNCS and not has_var(t['a'][0]):
         return True
     return any(_const_call(c) for c in t['a'] + t['b'])
 
@@ -176,6 +180,12 @@ def calls(ctx, tier):
     jobs = [dict(strs=[s], names=NAMESETS[k % len(NAMESETS)], ddt=(k % 2 == 1), tree=t) for k, (s, t) in enumerate(fam)]
     if tier == 'quick':
         jobs = jobs[::2]
+    # a call with a constant argument next to a variable (a pure-constant expression is folded as a whole)
+    for f in ('sin', 'cos', 'tanh', 'exp', 'sigmoid'):
+        cc = dict(k='call', a=[leaves[2]], b=[], n=f, c=0)
+        jobs.append(dict(strs=[f'2*{f}(2) + a'], names=NAMESETS[0], ddt=False,
+                         tree=dict(k='add', a=[dict(k='mul', a=[leaves[2]], b=[cc], n='', c=0)], b=[leaves[0]], n='', c=0)))
+        jobs.append(dict(strs=[f'{f}(2)*b'], names=NAMESETS[1 % len(NAMESETS)], ddt=True, tree=dict(k='mul', a=[cc], b=[leaves[1]], n='', c=0)))
     for j, o in zip(jobs, run_cases(job, [dict(items=[x]) for x in jobs], timeout=600)):
         exp = ev(j['tree'], VALUES)
         for res in o[0]:
